@@ -330,11 +330,14 @@ static void huge_len_case(fcase* fc) {
  * <struct lacking fields> <len> "PAR1".  Every open path must refuse each of them except the complete one. */
 static int build_footer_subset(uint8_t* o, int mask) {
     int n = 0, last = 0;
+    int variant = mask >> 4; mask &= 15;     /* 0: as stated; 1: the struct's STOP byte is missing (input ends at a field boundary);
+                                              * 2: one row group whose struct ends at a field boundary, no STOP bytes at all */
     if (mask & 1) { o[n++] = (uint8_t)(((1 - last) << 4) | 5); o[n++] = 2; last = 1; }
     if (mask & 2) { o[n++] = (uint8_t)(((2 - last) << 4) | 9); o[n++] = 0x1C; o[n++] = 0x48; o[n++] = 1; o[n++] = 'a'; o[n++] = 0; last = 2; }
     if (mask & 4) { o[n++] = (uint8_t)(((3 - last) << 4) | 6); o[n++] = 0; last = 3; }
-    if (mask & 8) { o[n++] = (uint8_t)(((4 - last) << 4) | 9); o[n++] = 0x0C; last = 4; }
-    o[n++] = 0;
+    if ((mask & 8) && variant == 2) { o[n++] = (uint8_t)(((4 - last) << 4) | 9); o[n++] = 0x1C; o[n++] = 0x19; o[n++] = 0x0C; o[n++] = 0x16; o[n++] = 0; o[n++] = 0x16; o[n++] = 0; last = 4; }
+    else if (mask & 8) { o[n++] = (uint8_t)(((4 - last) << 4) | 9); o[n++] = 0x0C; last = 4; }
+    if (variant == 0) o[n++] = 0;
     int len = n;
     o[n++] = (uint8_t)len; o[n++] = 0; o[n++] = 0; o[n++] = 0; o[n++] = 'P'; o[n++] = 'A'; o[n++] = 'R'; o[n++] = '1';
     return n;
@@ -344,10 +347,10 @@ static void subset_footers_case(fcase* fc) {
     fc->ncols = 1; snprintf(fc->cols[0].name, sizeof fc->cols[0].name, "s"); fc->cols[0].rep = 0; fc->cols[0].ptype = 6; fc->cols[0].tlen = 0;
     fc->codec = 0; fc->page = 1 << 20; fc->nsteps = 1;
     fstep* t = &fc->steps[0]; t->kind = 0; t->col = 0; t->has_defs = 0; t->has_reps = 0;
-    int n = 16;
+    int n = 19;      /* 16 subsets, then the complete struct cut before its STOP byte (16 + 15, 32 + 15) and one lacking a field cut likewise */
     t->nrows = n; t->nvals = n; t->defs = (uint8_t*)h_alloc((size_t)n); memset(t->defs, 1, (size_t)n);
     t->vals = (uint8_t**)h_alloc((size_t)n * sizeof(uint8_t*)); t->vlen = (int*)h_alloc((size_t)n * sizeof(int));
-    for (int i = 0; i < n; i++) { uint8_t tmp[64]; int l = build_footer_subset(tmp, i); t->vals[i] = h_alloc((size_t)l); memcpy(t->vals[i], tmp, (size_t)l); t->vlen[i] = l; }
+    for (int i = 0; i < n; i++) { uint8_t tmp[64]; int l = build_footer_subset(tmp, i < 16 ? i : i == 16 ? 16 + 15 : i == 17 ? 32 + 15 : 16 + 11); t->vals[i] = h_alloc((size_t)l); memcpy(t->vals[i], tmp, (size_t)l); t->vlen[i] = l; }
 }
 
 static void gen_c18(hctx* h) {
